@@ -17,6 +17,7 @@ import Hdl21Model.Lemmas.Resolve
 import Hdl21Model.Lemmas.Export
 import Hdl21Model.Lemmas.ExportWF
 import Hdl21Model.Lemmas.ConnTypes
+import Hdl21Model.Lemmas.Orphanage
 namespace Hdl21.Props.C06
 open Hdl21 Hdl21.ExportOrder
 
@@ -380,5 +381,28 @@ end Names
 /-! ### Non-vacuity: a diamond -/
 example : exportTops (fun m => if m = 3 then [1, 2] else if m = 1 ∨ m = 2 then [0] else []) 4 [3] = [0, 1, 2, 3] := by
   decide
+
+/-! ## "over the module's own signals" is what `Orphanage` checks -/
+section Ownership
+open Hdl21.Orphanage Hdl21.Pkg
+
+/-- **The ownership hypothesis of `checked_instance_is_instOK` discharged**: a connection that passed `Orphanage` in module `me`
+    and has been resolved to Signal / Slice / Concat form names only signals the module declares, with their widths — given that
+    every Signal object parented by `me` is declared by `me` under its name and width (the namespace coherence of C18:
+    `_parent_module` is set by, and only by, filing the object in the module's namespace). -/
+theorem orphanage_gives_sigsOK (me : Nat) (ws : List (String × Nat)) (c : OConn) (s : SConn)
+    (hcoh : ∀ n w, (n, w, some me) ∈ sigObjs c → Pkg.lookup n ws = some w)
+    (hpass : checkConn me c = true) (hres : erase c = some s) :
+    sigsOK ws s = true :=
+  erase_sigsOK me ws c s hcoh hpass hres
+
+/-- Without the check there is nothing to conclude: a signal of another module by the same name need not be declared here. -/
+example : checkConn 7 (.sig "s" 2 (some 8)) = false ∧ (erase (.sig "s" 2 (some 8))).isSome = true ∧ sigsOK [] (.sig "s" 2) = false := by
+  decide
+
+example : checkConn 7 (.concat [.slice (.sig "s" 2 (some 7)) (.int 1), .sig "t" 1 (some 7)]) = true ∧
+    sigsOK [("s", 2), ("t", 1)] (.concat [.slice (.sig "s" 2) (.int 1), .sig "t" 1]) = true := by decide
+
+end Ownership
 
 end Hdl21.Props.C06
